@@ -7,7 +7,6 @@ use common::{Cli, Report, Violation, par_for};
 use passage_adapters::Target;
 use passage_adapters::discovery::DiscoveryAdapter;
 use passage_adapters::strategy::StrategyAdapter;
-use passage_adapters_grpc::{GrpcDiscoveryAdapter, GrpcStrategyAdapter};
 use serde_json::{Value, json};
 use std::collections::HashMap;
 use std::net::{IpAddr, SocketAddr};
@@ -150,8 +149,10 @@ fn bad(cx: &Ctx, key: String, text: String, replay: Value, w: u64) {
 
 struct Peer {
     state: Arc<Mutex<MockState>>,
-    disc: GrpcDiscoveryAdapter,
-    strat: GrpcStrategyAdapter,
+    /// the adapters as the application builds them from its configuration (`Dyn*Adapter::from_config`): whatever
+    /// sits between the configuration and the gRPC adapters is part of the boundary
+    disc: passage::adapter::discovery::DynDiscoveryAdapter,
+    strat: passage::adapter::strategy::DynStrategyAdapter,
 }
 
 async fn start_peer() -> Peer {
@@ -164,8 +165,12 @@ async fn start_peer() -> Peer {
         let _ = tonic::transport::Server::builder().add_service(DiscoveryServer::new(mock.clone())).add_service(StrategyServer::new(mock)).serve_with_incoming(incoming).await;
     });
     let url = format!("http://{addr}");
-    let disc = GrpcDiscoveryAdapter::new(url.clone()).await.unwrap_or_else(|e| common::machinery(&format!("cannot connect discovery adapter: {e}")));
-    let strat = GrpcStrategyAdapter::new(url).await.unwrap_or_else(|e| common::machinery(&format!("cannot connect strategy adapter: {e}")));
+    let disc = passage::adapter::discovery::DynDiscoveryAdapter::from_config(passage::config::DiscoveryAdapter::Grpc(passage::config::GrpcDiscovery { address: url.clone() }))
+        .await
+        .unwrap_or_else(|e| common::machinery(&format!("cannot connect discovery adapter: {e}")));
+    let strat = passage::adapter::strategy::DynStrategyAdapter::from_config(passage::config::StrategyAdapter::Grpc(passage::config::GrpcStrategy { address: url }))
+        .await
+        .unwrap_or_else(|e| common::machinery(&format!("cannot connect strategy adapter: {e}")));
     Peer { state, disc, strat }
 }
 
@@ -504,7 +509,7 @@ pub fn run(cli: Cli) -> ! {
     cx.rep.set("targets_crossed", json!(cx.ok_targets.load(Ordering::Relaxed)));
     cx.rep.set("rejected", json!(cx.rejected.load(Ordering::Relaxed)));
     cx.rep.set("exhaustive", json!(true));
-    cx.rep.set("rule", json!("RPCs against an in-process tonic server generated from the repository's .proto files: discovery replies over host text(20, incl. absent) x port(6) [x identifier(4) x metadata(6) in thorough], identifier x metadata on good IPv4/IPv6 addresses, lists of 0-3, 11 histories of 3-7 consecutive replies on one adapter instance (a malformed reply repeated, between and after well-formed ones); select() over candidate lists (8 address shapes x metadata, ordered pairs) x reply (none, echo of the i-th candidate as received, out-of-range index, every host x port shape as a foreign reply) x client address, server address, player; 16 histories of 4 select() calls on one adapter instance whose candidate lists differ only in metadata values, metadata keys, one address, one identifier, order or length. Every job is distinct."));
+    cx.rep.set("rule", json!("RPCs against an in-process tonic server generated from the repository's .proto files, through the adapters as the application builds them (Dyn*Adapter::from_config): discovery replies over host text(20, incl. absent) x port(6) [x identifier(4) x metadata(6) in thorough], identifier x metadata on good IPv4/IPv6 addresses, lists of 0-3, 11 histories of 3-7 consecutive replies on one adapter instance (a malformed reply repeated, between and after well-formed ones); select() over candidate lists (8 address shapes x metadata, ordered pairs) x reply (none, echo of the i-th candidate as received, out-of-range index, every host x port shape as a foreign reply) x client address, server address, player; 16 histories of 4 select() calls on one adapter instance whose candidate lists differ only in metadata values, metadata keys, one address, one identifier, order or length. Every job is distinct."));
     cx.rep.sample(json!({"direction": "discovery-reply", "target": {"id": "a", "host": "2001:db8::1", "port": 25565, "meta": [["a", "b"]]}, "expect": "Target with address [2001:db8::1]:25565"}));
     cx.rep.sample(json!({"direction": "discovery-reply", "target": {"id": "a", "host": "10.1.2.3", "port": 65536}, "expect": "error"}));
     cx.rep.sample(json!({"direction": "select", "candidates": ["10.1.2.3:25565", "[2001:db8::1]:25565"], "reply": "Echo(1)", "expect": "the second candidate, unchanged"}));
